@@ -45,6 +45,19 @@ pub fn split_map(seed: u64) -> Map {
     m
 }
 
+/// a key that is still in the old table of a split map: iteration yields the main table first, the old table last
+pub fn old_table_key(m: &Map) -> u8 {
+    let mut last = 0u8;
+    for (k, _) in m.iter() {
+        last = *k;
+    }
+    last
+}
+/// a key that is in the main table of a split map (first yielded)
+pub fn main_table_key(m: &Map) -> u8 {
+    *m.iter().next().unwrap().0
+}
+
 #[cfg(kani)]
 mod harnesses {
     use super::*;
@@ -77,8 +90,7 @@ mod harnesses {
         let mut a = Map::with_hasher(Seeded(s1));
         let mut b = Map::with_hasher(Seeded(s2));
         let k1: u8 = 1;
-        let k2: u8 = kani::any();
-        kani::assume(k2 == 2 || k2 == 3 || k2 == 9);
+        let k2: u8 = if kani::any() { 2 } else { 9 };
         a.insert(k1, 1);
         a.insert(k2, 2);
         b.insert(k2, 2);
@@ -125,18 +137,20 @@ mod harnesses {
     }
 
     /// C12: the handle returned by Entry::insert designates the element: a write through it is seen by get
+    /// (symbolic choice among: a key in the old table, a key in the main table, an absent key)
     #[kani::proof]
     #[kani::unwind(10)]
     fn api_entry_insert_split() {
         let mut m = split_map(0);
-        let k: u8 = kani::any();
-        kani::assume(k < 9); // 8 is absent: the vacant path (which also carries)
-        let w: u8 = kani::any();
+        let (ko, km) = (old_table_key(&m), main_table_key(&m));
+        let c: u8 = kani::any();
+        kani::assume(c < 3);
+        let k = if c == 0 { ko } else if c == 1 { km } else { 8 };
         {
             let mut h = m.entry(k).insert(1);
-            *h.get_mut() = w;
+            *h.get_mut() = 9;
         }
-        assert!(m.get(&k) == Some(&w));
+        assert!(m.get(&k) == Some(&9));
         assert!(m.len() == if k == 8 { 9 } else { 8 });
     }
 
@@ -194,13 +208,12 @@ mod harnesses {
         assert!(m.len() == 5);
     }
 
-    /// C09: drain_filter yields exactly the matching elements and leaves the others
+    /// C09: drain_filter yields exactly the matching elements and leaves the others (two thresholds)
     #[kani::proof]
     #[kani::unwind(12)]
     fn drainf_threshold_split() {
         let mut m = split_map(0);
-        let t: u8 = kani::any();
-        kani::assume(t <= 8);
+        let t: u8 = if kani::any() { 2 } else { 6 };
         let mut yielded = 0u8;
         {
             let mut d = m.drain_filter(|k, _| *k < t);
@@ -212,9 +225,7 @@ mod harnesses {
         }
         assert!(yielded == t);
         assert!(m.len() == (8 - t) as usize);
-        let q: u8 = kani::any();
-        kani::assume(q < 8);
-        assert!(m.contains_key(&q) == (q >= t));
+        assert!(m.contains_key(&1) == (1 >= t) && m.contains_key(&7));
     }
 
     /// C11: clone_from into a destination with different hasher state and its own old table
@@ -247,42 +258,36 @@ mod harnesses {
         assert!(src.len() == 8 && c.len() == 7);
     }
 
-    /// C14: one differing value (wherever it is stored) makes == false, both ways
+    /// C14: one differing value (in the old or in the main table) makes == false, both ways
     #[kani::proof]
     #[kani::unwind(12)]
     fn eq_differs_in_one_value() {
         let a = split_map(0);
         let mut b = split_map(0);
-        let q: u8 = kani::any();
-        kani::assume(q < 8);
+        let q = if kani::any() { old_table_key(&b) } else { main_table_key(&b) };
         *b.get_mut(&q).unwrap() = 1;
         assert!(a != b);
         assert!(b != a);
     }
 
-    /// C13: algebra of two small sets, one element symbolic
+    /// C13: algebra of two small sets of different sizes, one element chosen among two candidates
     #[kani::proof]
     #[kani::unwind(8)]
     fn set_algebra_small() {
         let mut a = Set::with_hasher(Seeded(0));
         let mut b = Set::with_hasher(Seeded(0));
-        let k: u8 = kani::any();
-        kani::assume(k == 2 || k == 3 || k == 9);
+        let k: u8 = if kani::any() { 3 } else { 9 };
         a.insert(1);
+        a.insert(2);
         a.insert(k);
         b.insert(2);
         b.insert(3);
-        let inter = a.intersection(&b).count();
-        let uni = a.union(&b).count();
-        let diff = a.difference(&b).count();
-        let sym = a.symmetric_difference(&b).count();
-        let common = if k == 2 || k == 3 { 1 } else { 0 };
-        assert!(inter == common);
-        assert!(uni == 4 - common);
-        assert!(diff == 2 - common);
-        assert!(sym == 4 - 2 * common);
-        assert!(a.is_disjoint(&b) == (common == 0));
-        assert!(!a.is_subset(&b));
+        let common = if k == 3 { 2 } else { 1 };
+        assert!(a.intersection(&b).count() == common);
+        assert!(b.intersection(&a).count() == common);
+        assert!(a.difference(&b).count() == 3 - common);
+        assert!(a.union(&b).count() == 5 - common);
+        assert!(b.is_subset(&a) == (k == 3));
     }
 
     /// a key type whose equal instances are distinguishable: Eq/Hash look at `id` only
@@ -334,8 +339,7 @@ mod harnesses {
     fn entry_insert_replace_none() {
         let mut m = Map::with_hasher(Seeded(0));
         m.insert(1, 1);
-        let k: u8 = kani::any();
-        kani::assume(k == 2 || k == 9);
+        let k: u8 = if kani::any() { 2 } else { 9 };
         let e = m.entry(k).insert(5);
         match e.replace_entry_with(|_, _| None) {
             griddle::hash_map::Entry::Vacant(v) => { assert!(*v.key() == k); }
@@ -376,8 +380,7 @@ mod harnesses {
     fn set_eq_proper_subset() {
         let mut a = Set::with_hasher(Seeded(0));
         let mut b = Set::with_hasher(Seeded(0));
-        let k: u8 = kani::any();
-        kani::assume(k == 3 || k == 9);
+        let k: u8 = if kani::any() { 3 } else { 9 };
         a.insert(1);
         a.insert(2);
         b.insert(1);
@@ -389,20 +392,28 @@ mod harnesses {
         assert!(a == b && b == a);
     }
 
-    /// C08/C01: collect() and extend() keep one entry per key when the input repeats a key
+    /// C08/C01: collect() keeps one entry per key when the input repeats a key
     #[kani::proof]
     #[kani::unwind(8)]
-    fn from_iter_and_extend_duplicate_keys() {
-        let k: u8 = kani::any();
-        kani::assume(k == 1 || k == 2);
-        let m: Map = [(1u8, 10u8), (2, 20), (k, 30)].iter().cloned().collect();
+    fn from_iter_duplicate_keys() {
+        let k: u8 = if kani::any() { 1 } else { 2 };
+        let v = [(1u8, 10u8), (2, 20), (k, 30)];
+        let m: Map = v.iter().cloned().collect();
         assert!(m.len() == 2);
         assert!(m.iter().count() == 2);
         assert!(m.get(&k) == Some(&30));
+    }
+
+    /// C08/C01: extend() into an emptied map that kept its capacity keeps one entry per key
+    #[kani::proof]
+    #[kani::unwind(8)]
+    fn extend_refill_duplicate_keys() {
+        let k: u8 = if kani::any() { 1 } else { 2 };
         let mut n = Map::with_capacity_and_hasher(8, Seeded(0));
         n.insert(5, 5);
         n.clear();
-        n.extend([(1u8, 10u8), (k, 30), (2, 20)].iter().cloned());
+        let v = [(1u8, 10u8), (k, 30), (2, 20)];
+        n.extend(v.iter().cloned());
         assert!(n.len() == 2 && n.iter().count() == 2);
     }
 
@@ -446,8 +457,7 @@ mod harnesses {
         let mut a = Set::with_hasher(Seeded(0));
         let mut b = Set::with_hasher(Seeded(0));
         let k1: u8 = 1;
-        let k2: u8 = kani::any();
-        kani::assume(k2 == 2 || k2 == 3 || k2 == 9);
+        let k2: u8 = if kani::any() { 2 } else { 9 };
         a.insert(k1);
         a.insert(k2);
         b.insert(k2);
